@@ -413,12 +413,58 @@ def invrows : P String := do
     if i = 0 then none else some (invRowsC a b bb i)))
   pure s!"pairs={",".intercalate (prs.map (fun p => s!"{p.1}-{p.2}"))}"
 
+/-! ### n-step PPO -/
+
+/-- `train.nstep GAMMA LO HI CLIPR VF T B rat^(T·B)(rewards, t-major) rat^B(bootstrap values) HASOLD
+(dual(ll) rat(old_ll) dual(bl) [rat(old_value)] rat(ratio))^(T·B)` → returns (as coded), loss of one inner epoch, reference -/
+def nstep : P String := do
+  let gamma ← pRat; let lo ← pRat; let hi ← pRat; let cr ← pRat; let vf ← pRat
+  let T ← pNat; let B ← pNat
+  let rew ← pMany pRat (T * B)
+  let boot ← pMany pRat B
+  let hasOld ← pNat
+  let ents ← pMany (do
+    let ll ← pDual; let ol ← pRat; let bl ← pDual
+    let ov ← (if hasOld = 1 then pRat else pure 0)
+    let w ← pRat
+    pure (ll, ol, bl, ov, w)) (T * B)
+  atEnd
+  let n := T * B
+  -- returns per instance, as coded and in closed form
+  let retOf (coded : Bool) (b : Nat) : List Rat :=
+    let rs := (List.range T).map (fun t => rew.getD (t * B + b) 0)
+    if coded then NStep.returnsC gamma (boot.getD b 0) rs
+    else (List.range T).map (fun t => Spec.Train.nstepReturn gamma (boot.getD b 0) rs t)
+  let retC : Nat → Rat := fun i => (retOf true (i % B)).getD (i / B) 0
+  let retR : Nat → Rat := fun i => (retOf false (i % B)).getD (i / B) 0
+  let ll : Nat → Dual Rat := fun i => (ents.getD i (0, 0, 0, 0, 0)).1
+  let ol : Nat → Rat := fun i => (ents.getD i (0, 0, 0, 0, 0)).2.1
+  let bl : Nat → Dual Rat := fun i => (ents.getD i (0, 0, 0, 0, 0)).2.2.1
+  let ov : Nat → Rat := fun i => (ents.getD i (0, 0, 0, 0, 0)).2.2.2.1
+  let wv : Nat → Rat := fun i => (ents.getD i (0, 0, 0, 0, 0)).2.2.2.2
+  let table := (List.range n).map (fun i => ((ll i).v - ol i, wv i))
+  let w : Rat → Rat := fun x => match table.find? (fun p => p.1 == x) with | some p => p.2 | none => 0
+  let cfg : NStep.Cfg Rat := ⟨lo, hi, cr, vf⟩
+  let old : Option (Nat → Rat) := if hasOld = 1 then some ov else none
+  let o := NStep.lossBlock cfg w n ll bl ol old retC
+  let ref := Spec.Train.nstepLoss n lo hi cr vf (fun i => w ((ll i).v - ol i)) retR (fun i => (bl i).v) old
+  pure (s!"loss={ds o.loss} surrogate={ds o.surrogate} valueloss={ds o.valueLoss} "
+    ++ s!"returns={rsl ((List.range n).map retC)} refreturns={rsl ((List.range n).map retR)} spec={rs ref}")
+
+/-- `train.nstepmem N FINAL s^N` → the memory after a rollout block as coded (states are integers tags) -/
+def nstepmem : P String := do
+  let n ← pNat; let fin ← pNat
+  let st ← pMany pNat n
+  atEnd
+  pure s!"mem={",".intercalate ((NStep.rolloutMemC st fin).map toString)}"
+
 def run (p : P String) (toks : List String) : Option String := (p toks).map (·.1)
 
 def handlers : List (String × (List String → Option String)) :=
   [("train.welford", run welford), ("train.scale", run scale), ("train.ema", run ema),
    ("train.warmup", run warmup), ("train.reinforce", run reinforce), ("train.ppo", run ppo),
    ("train.symnco", run symnco), ("train.rolloutcb", run rolloutcb),
-   ("train.a2cgroups", run a2cgroups), ("train.invrows", run invrows)]
+   ("train.a2cgroups", run a2cgroups), ("train.invrows", run invrows),
+   ("train.nstep", run nstep), ("train.nstepmem", run nstepmem)]
 
 end Rl4co.Driver.Train
